@@ -266,3 +266,33 @@ def close(a, b, rel=1e-9, ab=1e-12):
     if math.isinf(a) or math.isinf(b):
         return a == b
     return abs(a - b) <= ab + rel * max(abs(a), abs(b))
+
+
+def small_exhaustive(maxlen=4, kinds=None):
+    """All samples over {0, u/2, u} of length 1..maxlen, for every kind of test, N in {n, n+2, infinite},
+    t = u/2 (so observations equal to t, totals equal to N t and m_j hitting 0 / u all occur)."""
+    import itertools
+    out = []
+    u = F(1)
+    for kind in (kinds or KINDS):
+        for n in range(1, maxlen + 1):
+            for xs in itertools.product([F(0), u / 2, u], repeat=n):
+                for N in ([n, n + 2] + ([None] if kind not in ("kk",) else [])):
+                    if kind in ("km", "kw") and N is not None:
+                        continue
+                    p = {}
+                    if kind in ("alpha_fixed", "sprt"):
+                        p["eta"] = F(3, 4)
+                    elif kind == "alpha_shrink":
+                        p = {"eta": F(3, 4), "c": F(1, 2), "d": F(10), "f": F(1, 2), "minsd": F(1, 8)}
+                    elif kind == "alpha_optcomp":
+                        continue    # needs u != 1; covered by the random stream
+                    elif kind == "bet_fixed":
+                        p["lam"] = F(3, 4)
+                    elif kind == "bet_agrapa":
+                        p = {"lam": F(1, 2), "c_grapa_0": F(1, 2), "c_grapa_max": F(3, 4), "c_grapa_grow": F(1)}
+                    else:
+                        p["g"] = F(0) if (n + len(out)) % 3 else F(1, 8)
+                    out.append(({"kind": kind, "N": N, "t": u / 2, "u": u, "ro": (len(out) % 4 != 0) or (kind == "sprt" and N is not None), "p": p},
+                                list(xs)))
+    return out
